@@ -180,6 +180,8 @@ def run(ck):
                        "obs": res.get("obs")})
     c07.run_recreate(ck, "C08", 120 if ck.tier == "quick" else 2000)
     c07.run_bidir(ck, "C08", 96 if ck.tier == "quick" else 1800)
+    c07.run_remove_disc(ck, "C08", 200 if ck.tier == "quick" else 3000)
+    c07.run_lastunsub(ck, "C08", 60 if ck.tier == "quick" else 600, 40 if ck.tier == "quick" else 400)
     return ck.finish("exhaustive op sequences (12-letter alphabet, 3 prefixes) + seeded random histories on 1-3 contexts, probes at "
                      "quiescent points + random schedules of a blocked subscriber with the peer vanishing; non-trivial = at least "
                      "one message delivered; distinct by label sequence")
@@ -191,6 +193,10 @@ def replay(rep):
         return c07.replay_recreate(c)
     if c.get("kind") == "bidir":
         return c07.replay_bidir(c)
+    if c.get("kind") == "lastunsub":
+        return c07.replay_lastunsub(c)
+    if c.get("kind") == "remove_disc":
+        return c07.replay_remove_disc(c)
     if c.get("kind") == "block":
         import qmi.core.context, qmi.core.rpc, qmi.core.pubsub, qmi.core.messaging, qmi.core.task  # noqa
         res = dsched.run_forked([(scenario_block, (c["seed"], c["how"], bool(c.get("lines"))),
